@@ -622,3 +622,87 @@ def arm_infeasible(body, bb):
                     return False
                 todo.append(nx)
     return True
+
+
+def bool_polarity(body, local, start_bb, start_idx, target_bb, max_states=20000):
+    """Does `target_bb` lie on the true side or on the false side of the boolean held by `local` (defined at statement
+    start_idx of start_bb, or by the call terminating start_bb when start_idx is None)?  The CFG is explored twice, once per
+    value, with constant propagation over booleans (moves, Not, constants assigned in the arms of a `match` / `matches!`, & and |):
+    a switch on a known boolean takes one edge, any other switch all of them.  Returns True / False / None (both or neither)."""
+    def run(val):
+        seen = set()
+        reach = False
+        if start_idx is None:
+            tgt = body.term(start_bb).get('target')
+            todo = [(tgt, 0, ((local, val),))] if tgt is not None else []
+        else:
+            todo = [(start_bb, start_idx + 1, ((local, val),))]
+        n = 0
+        while todo:
+            bb, idx, envt = todo.pop()
+            key = (bb, idx, envt)
+            if key in seen or body.is_cleanup(bb):
+                continue
+            seen.add(key)
+            n += 1
+            if n > max_states:
+                return None
+            if bb == target_bb:
+                return True
+            # coming round to the definition again (a loop): that is a fresh evaluation of the boolean, not this one
+            if bb == start_bb and (start_idx is None or idx <= start_idx) and len(seen) > 1:
+                continue
+            env = dict(envt)
+            stmts = body.blocks[bb]['stmts']
+            for s in stmts[idx:]:
+                if s['k'] != 'assign':
+                    continue
+                pl = s['place']
+                if pl['p']:
+                    continue
+                rv = s['rv']
+                v = None
+                if rv['k'] == 'use':
+                    if 'const' in rv['op'] and 'bool' in rv['op']['const']:
+                        v = rv['op']['const']['bool']
+                    else:
+                        ol = op_local(rv['op'])
+                        v = env.get(ol) if ol is not None else None
+                elif rv['k'] == 'un' and rv['op'] == 'Not':
+                    ol = op_local(rv['a'])
+                    v = (not env[ol]) if ol in env else None
+                elif rv['k'] == 'bin' and rv['op'] in ('BitAnd', 'BitOr', 'Eq', 'Ne'):
+                    la, lb = op_local(rv['a']), op_local(rv['b'])
+                    ca = rv['a'].get('const', {}).get('bool') if 'const' in rv['a'] else env.get(la)
+                    cb = rv['b'].get('const', {}).get('bool') if 'const' in rv['b'] else env.get(lb)
+                    if isinstance(ca, bool) and isinstance(cb, bool):
+                        v = {'BitAnd': ca and cb, 'BitOr': ca or cb, 'Eq': ca == cb, 'Ne': ca != cb}[rv['op']]
+                if isinstance(v, bool):
+                    env[pl['l']] = v
+                else:
+                    env.pop(pl['l'], None)
+            t = body.term(bb)
+            envt2 = tuple(sorted(env.items()))
+            if t['k'] == 'switch':
+                dl = op_local(t['discr'])
+                if dl in env:
+                    want = '1' if env[dl] else '0'
+                    tg = [x for v_, x in t['targets'] if v_ == want]
+                    todo.append((tg[0] if tg else t['otherwise'], 0, envt2))
+                else:
+                    for v_, x in t['targets']:
+                        todo.append((x, 0, envt2))
+                    todo.append((t['otherwise'], 0, envt2))
+            elif t['k'] == 'call':
+                if t.get('target') is not None:
+                    env.pop(t['dest']['l'], None)
+                    todo.append((t['target'], 0, tuple(sorted(env.items()))))
+            else:
+                for x in body.succ(bb):
+                    if not body.is_cleanup(x):
+                        todo.append((x, 0, envt2))
+        return reach
+    rt, rf = run(True), run(False)
+    if rt is None or rf is None or rt == rf:
+        return None
+    return bool(rt)
